@@ -21,7 +21,7 @@ func init() {
 	})
 }
 
-func typeSetHasSigned(t types.Type) bool {
+func typeSetHas(t types.Type, kinds map[types.BasicKind]bool) bool {
 	switch x := t.(type) {
 	case *types.TypeParam:
 		iface, _ := x.Constraint().Underlying().(*types.Interface)
@@ -30,36 +30,41 @@ func typeSetHasSigned(t types.Type) bool {
 		}
 		found := false
 		for i := 0; i < iface.NumEmbeddeds(); i++ {
-			if typeSetHasSigned(iface.EmbeddedType(i)) {
+			if typeSetHas(iface.EmbeddedType(i), kinds) {
 				found = true
 			}
 		}
 		return found
 	case *types.Union:
 		for i := 0; i < x.Len(); i++ {
-			if typeSetHasSigned(x.Term(i).Type()) {
+			if typeSetHas(x.Term(i).Type(), kinds) {
 				return true
 			}
 		}
 		return false
 	case *types.Named:
-		return typeSetHasSigned(x.Underlying())
+		return typeSetHas(x.Underlying(), kinds)
 	case *types.Alias:
-		return typeSetHasSigned(types.Unalias(x))
+		return typeSetHas(types.Unalias(x), kinds)
 	case *types.Interface:
 		for i := 0; i < x.NumEmbeddeds(); i++ {
-			if typeSetHasSigned(x.EmbeddedType(i)) {
+			if typeSetHas(x.EmbeddedType(i), kinds) {
 				return true
 			}
 		}
 		return false
 	case *types.Basic:
-		switch x.Kind() {
-		case types.Int, types.Int8, types.Int16, types.Int32, types.Int64, types.UntypedInt:
-			return true
-		}
+		return kinds[x.Kind()]
 	}
 	return false
+}
+
+func typeSetHasSigned(t types.Type) bool {
+	return typeSetHas(t, map[types.BasicKind]bool{types.Int: true, types.Int8: true, types.Int16: true, types.Int32: true, types.Int64: true, types.UntypedInt: true})
+}
+
+func typeSetHasUnsigned(t types.Type) bool {
+	return typeSetHas(t, map[types.BasicKind]bool{types.Uint: true, types.Uint8: true, types.Uint16: true, types.Uint32: true, types.Uint64: true, types.Uintptr: true})
 }
 
 func runC19(c *Ctx) {
@@ -147,8 +152,8 @@ func runC19(c *Ctx) {
 		// table of atom forms (three-valued; anything else is unknown). Constant folding at a single
 		// point, not an execution: the forms are d == -1, ^T(0) < 0, n != 0, n == -n, n < 0 and their
 		// negations, combined with ! && || and through unexported predicate helpers.
-		var atCritical func(e ast.Expr, body *ast.BlockStmt, d types.Object, depth int) (val, known bool)
-		atCritical = func(e ast.Expr, body *ast.BlockStmt, d types.Object, depth int) (bool, bool) {
+		var atCritical func(e ast.Expr, body *ast.BlockStmt, d types.Object, depth int, signed bool) (val, known bool)
+		atCritical = func(e ast.Expr, body *ast.BlockStmt, d types.Object, depth int, signed bool) (bool, bool) {
 			e = ast.Unparen(e)
 			isOther := func(x ast.Expr) bool {
 				o := objOfIdent(info, x)
@@ -166,18 +171,18 @@ func runC19(c *Ctx) {
 			switch x := e.(type) {
 			case *ast.UnaryExpr:
 				if x.Op == token.NOT {
-					v, k := atCritical(x.X, body, d, depth)
+					v, k := atCritical(x.X, body, d, depth, signed)
 					return !v, k
 				}
 			case *ast.Ident:
 				if def := definingExpr(info, body, x); def != nil && depth > 0 {
-					return atCritical(def, body, d, depth-1)
+					return atCritical(def, body, d, depth-1, signed)
 				}
 			case *ast.BinaryExpr:
 				switch x.Op {
 				case token.LAND, token.LOR:
-					lv, lk := atCritical(x.X, body, d, depth)
-					rv, rk := atCritical(x.Y, body, d, depth)
+					lv, lk := atCritical(x.X, body, d, depth, signed)
+					rv, rk := atCritical(x.Y, body, d, depth, signed)
 					if x.Op == token.LAND {
 						if (lk && !lv) || (rk && !rv) {
 							return false, true
@@ -190,6 +195,9 @@ func runC19(c *Ctx) {
 					return false, lk && rk
 				case token.EQL, token.NEQ:
 					eq := x.Op == token.EQL
+					if !signed {
+						break // over an unsigned type nothing is known about these equalities (max == ^T(0), 2^(n-1) == -2^(n-1))
+					}
 					switch {
 					case (objOfIdent(info, x.X) == d && isMinusOneIn(body, x.Y)) || (objOfIdent(info, x.Y) == d && isMinusOneIn(body, x.X)):
 						return eq, true // d == -1
@@ -202,17 +210,17 @@ func runC19(c *Ctx) {
 					lt := x.Op == token.LSS
 					switch {
 					case isMinusOneIn(body, x.X) && isZero(x.Y):
-						return lt, true // -1 < 0: the type is signed
+						return lt == signed, true // ^T(0) < 0 exactly when the type is signed
 					case isOther(x.X) && isZero(x.Y):
-						return lt, true // min < 0
+						return lt == signed, true // min < 0; nothing unsigned is below zero
 					}
 				case token.GTR, token.LEQ:
 					gt := x.Op == token.GTR
 					switch {
 					case isZero(x.X) && isMinusOneIn(body, x.Y):
-						return gt, true
+						return gt == signed, true
 					case isZero(x.X) && isOther(x.Y):
-						return gt, true
+						return gt == signed, true
 					}
 				}
 			case *ast.CallExpr:
@@ -249,7 +257,7 @@ func runC19(c *Ctx) {
 				} else if !isOther(x.Args[0]) {
 					break
 				}
-				return atCritical(ret.Results[0], hd.Body, role, depth-1)
+				return atCritical(ret.Results[0], hd.Body, role, depth-1, signed)
 			}
 			return false, false
 		}
@@ -284,7 +292,7 @@ func runC19(c *Ctx) {
 					continue
 				}
 				var guards []Edge
-				var undecided []string
+				var undecided, spurious []string
 				for _, b := range f.G.Blocks {
 					cnd := condOf(b)
 					if cnd == nil || !b.Live {
@@ -297,7 +305,14 @@ func runC19(c *Ctx) {
 						other := b.Succs[1-si]
 						if !pathExists(f, Point{other, 0}, pt) {
 							// the edge that leaves (1-si) must be the one taken at (min, -1)
-							val, known := atCritical(cnd, fd.Body, divisor, 3)
+							val, known := atCritical(cnd, fd.Body, divisor, 3, true)
+							// over the unsigned members of the type set the guard must be known NOT to leave:
+							// ^T(0) is the maximum there and 2^(n-1) is its own negation, so a guard without a
+							// signedness test reports a spurious overflow for (2^(n-1), max)
+							uval, uknown := atCritical(cnd, fd.Body, divisor, 3, false)
+							if typeSetHasUnsigned(t) && !(uknown && uval != (1-si == 0)) {
+								spurious = append(spurious, fmt.Sprintf("%s: over the unsigned types of the type set the branch on %s is not known to stay (no conjunct that is false for unsigned types, such as ^T(0) < 0): a spurious overflow error for operands like (2^(n-1), max)", p.posStr(cnd.Pos()), types.ExprString(cnd)))
+							}
 							if known && val == (1-si == 0) {
 								guards = append(guards, Edge{b, si})
 							} else {
@@ -305,6 +320,25 @@ func runC19(c *Ctx) {
 							}
 						}
 					}
+				}
+				// a divide-back check (x*y)/x: when the guard fires for the unsigned pair (max, 2^(n-1)) the
+				// product overflows anyway, so the error is right; only a quotient that is the result matters
+				divideBack := false
+				if dx, _ := f.Resolve(d.X, pt); dx != nil {
+					if mb, ok := ast.Unparen(dx).(*ast.BinaryExpr); ok && mb.Op == token.MUL && (objOfIdent(info, mb.X) == divisor || objOfIdent(info, mb.Y) == divisor) {
+						divideBack = true
+					}
+				}
+				if mb, ok := ast.Unparen(d.X).(*ast.BinaryExpr); ok && mb.Op == token.MUL && (objOfIdent(info, mb.X) == divisor || objOfIdent(info, mb.Y) == divisor) {
+					divideBack = true
+				}
+				if divideBack {
+					spurious = nil
+				}
+				if len(spurious) > 0 {
+					r.Fail("signed-div/guard-signed-only", key, p.posStr(d.Pos()), spurious[0], spurious...)
+				} else if typeSetHasUnsigned(t) && !divideBack {
+					r.Pass("signed-div/guard-signed-only", key, p.posStr(d.Pos()), "the (min, -1) guard contains a conjunct that is false for every unsigned type: no spurious error there")
 				}
 				if w, only := f.OnlyThroughEdges(pt, guards); only {
 					r.Pass("signed-div/guarded", key, p.posStr(d.Pos()), "dominated by a branch that singles out divisor == -1 and leaves through its other edge")
